@@ -533,6 +533,10 @@ package lib
 // is IPv4; an IPv6 registration only if the client asked for IPv6 and the station has IPv6 enabled; at most one each.
 //@   atcall NewRegistrationC2SWrapper before: assert @C07: arg1 == parsed && !arg2 ==> rm.EnableIPv4 && isV4(sourceAddr) && parsed.RegistrationPayload != nil && parsed.RegistrationPayload.V4Support != nil && *parsed.RegistrationPayload.V4Support
 //@   atcall NewRegistrationC2SWrapper before: assert @C07: arg1 == parsed && arg2 ==> rm.EnableIPv6 && parsed.RegistrationPayload != nil && parsed.RegistrationPayload.V6Support != nil && *parsed.RegistrationPayload.V6Support
+// C10 "every announcement is acceptable to the detector": a message without registrant address (registered over the
+// API, or client address logging off) is given 16 zero bytes in the WRAPPER the registrations are built from, so that
+// the announced client address is the literal "::" and not the text of a nil address, which the detector rejects
+//@   atcall NewRegistrationC2SWrapper before: assert @C10: arg1 == parsed && parsed.RegistrationAddress != nil
 //@   atcall NewRegistrationC2SWrapper#1 before: assert @C07: !arg2
 //@   atcall NewRegistrationC2SWrapper#2 before: assert @C07: arg2
 //@   ensures @C07: result1 == nil ==> len(result0) <= 2
